@@ -31,13 +31,14 @@ pub proof fn lemma_tw_set(offs: Seq<Offset>, f: spec_fn(int) -> int, hz: int, ma
 
 /// the same for a shifted stream: m = offs mapped through the monotone saturating shift, tw = take_while(< max) of m
 #[verifier::spinoff_prover]
-pub proof fn lemma_shifted_tw_set(offs: Seq<Offset>, f: spec_fn(int) -> int, hz: int, dlo: int, dl: int, max: int, tw: Seq<Offset>)
-    requires offsets_exact(offs, f, hz), dlo >= 0, dl >= 0, max >= 0, hz >= max + dl, hz + dlo <= u64::MAX,
+pub proof fn lemma_shifted_tw_set(offs: Seq<Offset>, f: spec_fn(int) -> int, hz: int, ub: int, dlo: int, dl: int, max: int, tw: Seq<Offset>)
+    requires offsets_exact(offs, f, hz), dlo >= 0, dl >= 0, max >= 0, hz >= max + dl, ub + dlo <= u64::MAX,
+        off_lt(offs, ub),
         tw_of(tw, offs.map_values(sh(dlo, dl)), max)
     ensures forall |a: int| #[trigger] off_has(tw, a) <==> shifted_in(f, dlo, dl, max, a)
 {
     let m = offs.map_values(sh(dlo, dl));
-    assert forall |i: int| 0 <= i < offs.len() implies 0 <= (#[trigger] offs[i]).val < hz && is_step_at(f, offs[i].v() + 1) && m[i].v() == sat(offs[i].v() + dlo - dl) by {
+    assert forall |i: int| 0 <= i < offs.len() implies 0 <= (#[trigger] offs[i]).val < ub && is_step_at(f, offs[i].v() + 1) && m[i].v() == sat(offs[i].v() + dlo - dl) by {
         assert(off_has(offs, offs[i].v()));
     }
     assert forall |a: int| #[trigger] off_has(tw, a) <==> shifted_in(f, dlo, dl, max, a) by {
